@@ -22,6 +22,8 @@ Definition maxp : nat := 64.     (* stands for tokio's MAX_READS; only "more tha
 (* the calls of the async API that are exercised *)
 Inductive acall :=
 | ASet (v : V)                 (* SharedObservable::set(v).await *)
+| AUpd (x : op V)              (* the other async writers: set_if_not_eq / set_if_hash_not_eq / take /
+                                  update / update_if (.await): write lock, then the state method *)
 | AGet                         (* get().await *)
 | AWrite                       (* write().await: the guard is kept until ADropGuard *)
 | ARead                        (* read().await: the guard is kept until ADropGuard *)
@@ -50,7 +52,13 @@ Record astate := {
   a_guards : list guard;        (* guard slot per future id (AWrite / ARead results) *)
 }.
 
-Definition need_of (c : acall) : nat := match c with ASet _ | AWrite => maxp | _ => 1 end.
+Definition need_of (c : acall) : nat := match c with ASet _ | AUpd _ | AWrite => maxp | _ => 1 end.
+
+Definition is_writer (x : op V) : bool :=
+  match x with
+  | WSet _ | WSetIfNotEq _ | WSetIfHashNotEq _ | WTake | WUpdate _ | WUpdateIf _ _ => true
+  | _ => false
+  end.
 
 Definition upd_fut (s : astate) (id : nat) (ph : phase) : astate :=
   match nth_error (a_futs s) id with
@@ -99,6 +107,11 @@ Definition run_body (fixed_next_ref : bool) (s : astate) (id : nat) (c : acall) 
   match c with
   | ASet v =>
       match step veq heq vdefault o (WSet v) with
+      | Ok (o', r, w) => finish (with_obs o') r w maxp
+      | Panic => (s, None, [])
+      end
+  | AUpd x =>
+      match step veq heq vdefault o x with
       | Ok (o', r, w) => finish (with_obs o') r w maxp
       | Panic => (s, None, [])
       end
@@ -234,7 +247,7 @@ Definition call_possible (s : astate) (c : acall) : bool :=
               | Some (Some _) => negb (sub_busy s k)
               | _ => false
               end
-  | None => match c with ASkip => false | _ => true end
+  | None => match c with ASkip => false | AUpd x => is_writer x | _ => true end
   end.
 
 (* an impossible call occupies its slot and does nothing *)
@@ -276,6 +289,7 @@ Fixpoint a_run (fixed_next_ref : bool) (s : astate) (es : list aev) : astate :=
 Definition sync_op (c : acall) : option (op V) :=
   match c with
   | ASet v => Some (WSet v)
+  | AUpd x => Some x
   | AGet | ARead => Some WGet
   | ANextNow k => Some (SNextNow k)
   | ANext k | ANextRef k | AStreamNext k => Some (SPoll k)
